@@ -77,10 +77,12 @@ impl<'a> Ev<'a> {
             }
             // a tuple variant named as a function: `.map(Self::Variant)`
             Val::Enum { ty, var, args: a } if a.is_empty() && !args.is_empty() => vec![(st, Flow::Val(Val::Enum { ty: ty.clone(), var: var.clone(), args }))],
+            // a function-typed parameter handed on as a value: the same value calling it by name gives
+            Val::Sym { path, .. } if !path.contains('.') && !path.contains('[') => vec![(st, Flow::Val(Val::opaque(format!("call {path}"), args)))],
             other => vec![(st, Flow::Val(Val::opaque("call", std::iter::once(other.clone()).chain(args).collect())))],
         }
     }
-    fn is_callable(v: &Val) -> bool { matches!(v, Val::Closure(_) | Val::LocalFn(_)) || matches!(v, Val::Opaque { what, .. } if what.starts_with("path ")) || matches!(v, Val::Enum { args, .. } if args.is_empty()) }
+    fn is_callable(v: &Val) -> bool { matches!(v, Val::Closure(_) | Val::LocalFn(_)) || matches!(v, Val::Sym { path, .. } if !path.contains('.') && !path.contains('[')) || matches!(v, Val::Opaque { what, .. } if what.starts_with("path ")) || matches!(v, Val::Enum { args, .. } if args.is_empty()) }
 
     /// truth of `f(x)`, forking
     fn pred(&self, st: St, f: &Val, x: &Val, sp: proc_macro2::Span) -> Vec<(St, Result<bool, Flow>)> {
